@@ -127,4 +127,43 @@ theorem bind_first_token (ctxs : List ContextElement) (tr : SecTrailer) :
   show (pfcSupportHeaderSign ||| 1 ||| 2) / 4 % 2 = 1
   decide
 
+/-- the token `_process_bind_ack` hands on is exactly the auth value of the ack's security trailer (none if it has no trailer) -/
+theorem ack_token (ack : Pdu) (ctxs fc : List ContextElement) (tok : Option Bytes) (sh sh' : Bool)
+    (h : processBindAck ack ctxs sh = .ok (fc, tok, sh')) : tok = ack.secTrailer.map (·.authValue) := by
+  unfold processBindAck at h
+  cases hb : ack.body with
+  | bindAck al mx mr ag sa results =>
+    simp only [hb, Bind.bind, Except.bind] at h
+    split at h
+    · cases h
+    · simp only [pure, Except.pure, Except.ok.injEq, Prod.mk.injEq] at h
+      exact h.2.1.symm
+  | _ => simp [hb] at h
+
+/-- one leg of the loop: the provider is stepped with the token received last (`fedToken` of the event), its output goes out in an
+    alter_context, and the NEXT leg is fed the auth value of the alter_context_resp just received — the server's tokens are fed
+    back in order, none skipped, none repeated -/
+theorem tokens_fed (a : Auth) (tok : Bytes) (done : Bool) (script : ProviderScript) (inTok : Option Bytes) (fc : List ContextElement)
+    (sh : Bool) (server server' : List Bytes) (ev : List Event) (ack resp : Pdu) (fc' : List ContextElement) (tok' : Option Bytes) (sh' : Bool)
+    (htok : tok ≠ [])
+    (hx : exchange (some a) sh (createAlterContext fc (trailerOf a.provider tok) sh) .alterContextResp server = .ok (resp, server'))
+    (hp : processBindAck resp fc sh = .ok (fc', tok', sh')) :
+    ∃ e : Event, e.sentToken = some tok ∧ e.fedToken = some (inTok.getD []) ∧ e.sentType = 14 ∧
+      tok' = resp.secTrailer.map (·.authValue) ∧
+      alterLoop a ((tok, done) :: script) false inTok fc sh server ev ack = alterLoop a script done tok' fc sh' server' (ev ++ [e]) ack := by
+  refine ⟨⟨14, (createAlterContext fc (trailerOf a.provider tok) sh).header.packetFlags, some tok, fc.map (·.contextId), some (inTok.getD [])⟩,
+    rfl, rfl, rfl, ack_token resp fc fc' tok' sh sh' hp, ?_⟩
+  simp only [alterLoop, htok, if_false, hx, hp]
+
+/-- the first leg: `bind` steps the provider with no token, sends its output in the bind, and feeds the bind_ack's token to the loop -/
+theorem bind_feeds_ack_token (a : Auth) (tok : Bytes) (done : Bool) (script : ProviderScript) (contexts : List ContextElement) (server server' : List Bytes)
+    (ack : Pdu) (fc : List ContextElement) (tok' : Option Bytes) (sh' : Bool)
+    (hx : exchange (some a) (createBind contexts (some (trailerOf a.provider tok))).2 (createBind contexts (some (trailerOf a.provider tok))).1 .bindAck server = .ok (ack, server'))
+    (hp : processBindAck ack contexts (createBind contexts (some (trailerOf a.provider tok))).2 = .ok (fc, tok', sh')) :
+    ∃ e : Event, e.sentToken = some tok ∧ e.fedToken = none ∧ e.sentType = 11 ∧ tok' = ack.secTrailer.map (·.authValue) ∧
+      bind (some a) ((tok, done) :: script) contexts server = alterLoop a script done tok' fc sh' server' [e] ack := by
+  refine ⟨⟨11, (createBind contexts (some (trailerOf a.provider tok))).1.header.packetFlags, some tok, contexts.map (·.contextId), none⟩,
+    rfl, rfl, rfl, ack_token ack contexts fc tok' _ sh' hp, ?_⟩
+  simp only [RpcClient.bind, hx, hp]
+
 end DpapiNg.C15
